@@ -4,6 +4,7 @@ import (
 	"errors"
 	"fmt"
 	"iter"
+	"math"
 	"strings"
 
 	"github.com/berquerant/crd/errorx"
@@ -161,6 +162,10 @@ func (d Degree) Semitone() (Semitone, bool) {
 	// compound degree: take off whole octaves (perfect1 is identical to perfect8)
 	// at once, a recursion per octave overflows the stack for huge values
 	octaves := (d.Value - 2) / (perfect8.Value - 1)
+	if octaves > maxDegreeOctaves {
+		// the size does not fit a Semitone, the product below would wrap
+		return 0, false
+	}
 	e := Degree{
 		Value: d.Value - octaves*(perfect8.Value-1),
 		Name:  d.Name,
@@ -170,6 +175,10 @@ func (d Degree) Semitone() (Semitone, bool) {
 	}
 	return 0, false
 }
+
+// maxDegreeOctaves bounds compound degrees: the size, and the size plus a
+// note or an alteration, must fit a Semitone.
+const maxDegreeOctaves = uint(math.MaxInt/octaveSemitones - 4)
 
 func NewDegree(value uint, name DegreeName) (Degree, bool) {
 	d := Degree{
